@@ -111,6 +111,8 @@ HASH_CONFIGS = {
     'equator-40-seam': ([F(0), F(5)], F(40), F(10), 'seam'),
     'band-40': ([F(-10), F(10)], F(40), F(15), 'seam'),       # (all RA: over the 1700 s budget)
     'polar-30': ([F(80), F(85)], F(30), F(5), None),
+    # next to the pole the declination grid is clipped at 90 deg: slices narrower than the match length, a margin spanning several
+    'polar-narrow': ([F(177, 2), F(179, 2)], F(1), F(19, 20), 'local'),
     'three-60': ([F(0), F(20), F(-20)], F(60), F(25), 'seam'),
 }
 
@@ -132,10 +134,14 @@ def ob_hash(name):
                 ctx.add(z3.Or(zt(v) < 15, zt(v) >= 345))
             if window == 'seam-narrow':
                 ctx.add(z3.Or(zt(v) < 10, zt(v) >= 350))
+            if window == 'local':
+                ctx.add(z3.And(zt(v) >= 99, zt(v) <= 101))
         ra2, dec2 = ctx.real('ra2'), ctx.real('dec2')
         ctx.add(z3.And(zt(ra2) >= 0, zt(ra2) < 360, zt(dec2) > -90, zt(dec2) < 90))
         if window == 'seam-narrow':
             ctx.add(z3.And(z3.Or(zt(ra2) < 40, zt(ra2) >= 320), zt(dec2) > -30, zt(dec2) < 30))
+        if window == 'local':
+            ctx.add(z3.And(zt(ra2) >= 98, zt(ra2) <= 102, zt(dec2) > 87))
         d = {'fn': 'hash', 'config': name}
         ctx.detail = d
         chunk = sg.chunks(symnp.rarray(ra1), symnp.rarray(dec1), R(minsize))
@@ -156,7 +162,7 @@ def ob_hash(name):
             else:
                 ctx.require(zt(ra2) == zt(ra2), 'symbolic touch')
     return Obligation('chunk hash %s' % name, fn, bounds='first list: %d points at Dec %s, every RA%s; second list: one point anywhere; chunk size %s, match length %s'
-                      % (len(dec1), [str(x) for x in dec1], {None: '', 'seam': ' within 15 deg of the seam', 'seam-narrow': ' within 10 deg of the seam (second list: within 40 deg of it, |Dec| < 30)'}[window], minsize, margin),
+                      % (len(dec1), [str(x) for x in dec1], {None: '', 'local': ' in [99, 101] (second list: RA in [98, 102], Dec > 87)', 'seam': ' within 15 deg of the seam', 'seam-narrow': ' within 10 deg of the seam (second list: within 40 deg of it, |Dec| < 30)'}[window], minsize, margin),
                       max_paths=400000, max_seconds=1700, solver_timeout_ms=60000)
 
 
@@ -166,7 +172,7 @@ def obligations(tier, seed):
     for n1, n2 in shapes:
         for mm in (0, 1, 2):
             obs.append(ob_match(n1, n2, mm))
-    for name in (('equator-120-seam',) if tier == 'quick' else [n for n in HASH_CONFIGS if n != 'equator-120-seam']):
+    for name in (('equator-120-seam', 'polar-narrow') if tier == 'quick' else [n for n in HASH_CONFIGS if n != 'equator-120-seam']):
         obs.append(ob_hash(name))
     if tier == 'quick':
         obs.append(ob_match(3, 2, 1))
